@@ -363,6 +363,29 @@ func (g *c10Gen) goal() *term.Term {
 	}
 }
 
+// noCut replaces the cuts of a body by true (for positions where this engine makes a cut local).
+func noCut(t *term.Term) *term.Term {
+	if t.IsAtom("!") {
+		return term.A("true")
+	}
+	if t.IsCmp(",", 2) || t.IsCmp(";", 2) || t.IsCmp("->", 2) {
+		return term.C(t.S, noCut(t.Args[0]), noCut(t.Args[1]))
+	}
+	return t
+}
+
+// test is a condition for if-then-else (never a variable goal, never a cut).
+func (g *c10Gen) test() *term.Term {
+	switch g.r.Intn(3) {
+	case 0:
+		return term.C("m", g.term(1))
+	case 1:
+		return term.C("=", g.term(1), g.term(1))
+	default:
+		return term.C("n", g.term(0))
+	}
+}
+
 func (g *c10Gen) conj() *term.Term {
 	n := 1 + g.r.Intn(3)
 	gs := make([]*term.Term, n)
@@ -388,8 +411,25 @@ func (g *c10Gen) clause() (*term.Term, map[int64]*term.Term) {
 	cl := head
 	if g.r.Intn(100) < 65 {
 		body := g.conj()
-		if g.r.Intn(6) == 0 {
+		switch g.r.Intn(14) {
+		case 0, 1:
 			body = term.C(";", body, g.conj())
+		case 2:
+			// three alternatives, nested on the right and on the left (a disjunction nested on the left is a goal
+			// of its own: no cut inside it, see C03's scope)
+			if g.r.Intn(2) == 0 {
+				body = term.C(";", body, term.C(";", g.conj(), g.conj()))
+			} else {
+				body = term.C(";", term.C(";", noCut(body), noCut(g.conj())), g.conj())
+			}
+		case 3:
+			// an if-then-else as the LEFT alternative of a disjunction: ((C -> T ; E) ; F) is two alternatives
+			body = term.C(";", term.C(";", term.C("->", g.test(), noCut(body)), noCut(g.conj())), g.conj())
+		case 4:
+			// an if-then-else as a goal and as the last alternative
+			body = term.C(";", g.conj(), term.C(";", term.C("->", g.test(), noCut(body)), noCut(g.conj())))
+		case 5:
+			body = term.C(",", term.C(";", term.C("->", g.test(), noCut(g.conj())), noCut(g.conj())), body)
 		}
 		cl = term.C(":-", head, body)
 	}
@@ -399,7 +439,7 @@ func (g *c10Gen) clause() (*term.Term, map[int64]*term.Term) {
 	if cl.IsCmp(":-", 2) {
 		var walk func(t *term.Term)
 		walk = func(t *term.Term) {
-			if t.IsCmp(",", 2) || t.IsCmp(";", 2) {
+			if t.IsCmp(",", 2) || t.IsCmp(";", 2) || t.IsCmp("->", 2) {
 				walk(t.Args[0])
 				walk(t.Args[1])
 			} else if t.K == term.KVar {
@@ -555,8 +595,43 @@ func (c *c10) Generate(cx *Ctx, chunk int) []*Item {
 		compiled := &proto.Case{Kind: "compile", Inputs: []*term.Term{bound}}
 		meta, _ := json.Marshal(m)
 		items = append(items, &Item{Cases: []*proto.Case{asserted, consulted, compiled}, Meta: meta})
+		// every 8th clause additionally: the SAME clause term asserted three times under backtracking with a
+		// different binding of one of its variables each time (the stored clauses must be three different terms)
+		if vs := term.VarsOf(bound); i%8 == 0 && len(vs) > 0 && len(goalVars(bound)) == 0 {
+			x := vs[g.r.Intn(len(vs))]
+			bm := &c10Meta{Clause: bound, Bound: bound, Arity: ar, Kind: "backtrack", NBinds: int(x)}
+			bc := &proto.Case{Kind: "prolog", Setup: []string{c10Helpers, ":- dynamic(p/" + fmt.Sprint(ar) + ")."},
+				Inputs: []*term.Term{bound, term.V(x)},
+				Steps: []proto.Step{
+					// no call/N, ';' or '->' around the assert: those recompile their goal and rebuild its lists
+					{Query: "verif_in(0, C), verif_in(1, X), bt_loop(C, X).", Max: 2},
+					{Query: "clause(" + hd + ", B).", Max: 12},
+				}}
+			bc.Setup[0] += "bt_member(X, [X|_]).\nbt_member(X, [_|T]) :- bt_member(X, T).\nbt_loop(C, X) :- bt_member(X, [u1, u2, u3]), assertz(C), fail.\nbt_loop(_, _).\n"
+			bmeta, _ := json.Marshal(bm)
+			items = append(items, &Item{Cases: []*proto.Case{bc}, Meta: bmeta})
+		}
 	}
 	return items
+}
+
+// goalVars returns the variables that occur as goals in the body of a clause.
+func goalVars(cl *term.Term) map[int64]bool {
+	out := map[int64]bool{}
+	if !cl.IsCmp(":-", 2) {
+		return out
+	}
+	var walk func(t *term.Term)
+	walk = func(t *term.Term) {
+		if t.IsCmp(",", 2) || t.IsCmp(";", 2) || t.IsCmp("->", 2) {
+			walk(t.Args[0])
+			walk(t.Args[1])
+		} else if t.K == term.KVar {
+			out[t.I] = true
+		}
+	}
+	walk(cl.Args[1])
+	return out
 }
 
 // c10Probe builds G-Vs: G = the stored head with renamed variables and every list in the generic
@@ -639,6 +714,49 @@ func (c *c10) judgeBootstrap(outs []*run.Outcome) Verdict {
 	return v
 }
 
+// judgeBacktrack: the clause term was asserted three times under backtracking with X = u1, u2, u3.
+func (c *c10) judgeBacktrack(m *c10Meta, outs []*run.Outcome) Verdict {
+	out := outs[0]
+	if out.Crash != nil || out.Res == nil {
+		return Verdict{Status: Inconclusive, Msg: "worker died on the backtracking-assert case"}
+	}
+	res := out.Res
+	if res.Fatal != "" || len(res.Steps) < 2 {
+		return Verdict{Status: Inconclusive, Msg: "worker: " + res.Fatal}
+	}
+	v := Verdict{Status: Held, NonTrivial: true, Extra: map[string]int64{"asserted_under_backtracking": 1}}
+	fail := func(msg string) Verdict {
+		v.Status = Violated
+		v.Msg = fmt.Sprintf("%s | clause asserted three times under backtracking with _G%d = u1, u2, u3: %s", msg, m.NBinds, m.Bound)
+		return v
+	}
+	if st := res.Steps[0]; st.Err != nil || len(st.Answers) != 1 {
+		return fail(fmt.Sprintf("the assert loop did not succeed once (%d answers, err %v)", len(st.Answers), st.Err))
+	}
+	st := res.Steps[1]
+	if st.Err != nil {
+		return fail("clause/2 raised " + st.Err.Text)
+	}
+	if len(st.Answers) != 3 {
+		return fail(fmt.Sprintf("clause/2 lists %d clauses, three were added", len(st.Answers)))
+	}
+	for k, a := range st.Answers {
+		bound := applyBinds(m.Bound, map[int64]*term.Term{int64(m.NBinds): term.A(fmt.Sprintf("u%d", k+1))})
+		args, body := c10Stored(bound)
+		want := append(append([]*term.Term{}, args...), body)
+		got := make([]*term.Term, 0, m.Arity+1)
+		for i := 0; i < m.Arity; i++ {
+			got = append(got, a[fmt.Sprintf("V%d", i)])
+		}
+		got = append(got, a["B"])
+		if !term.VariantAll(want, got) {
+			return fail(fmt.Sprintf("stored clause %d is %s :- %s, expected a variant of %s", k+1, term.C("p", got[:m.Arity]...), got[m.Arity], bound))
+		}
+	}
+	v.Sample = map[string]interface{}{"clause": m.Bound.String(), "variable": m.NBinds}
+	return v
+}
+
 func (c *c10) Judge(cx *Ctx, it *Item, outs []*run.Outcome) Verdict {
 	var m c10Meta
 	if err := decodeMeta(it, &m); err != nil {
@@ -646,6 +764,9 @@ func (c *c10) Judge(cx *Ctx, it *Item, outs []*run.Outcome) Verdict {
 	}
 	if m.Kind == "bootstrap" {
 		return c.judgeBootstrap(outs)
+	}
+	if m.Kind == "backtrack" {
+		return c.judgeBacktrack(&m, outs)
 	}
 	v := Verdict{Status: Held, Extra: map[string]int64{}}
 	_, alts := clauseAlternatives(m.Bound)
